@@ -99,7 +99,11 @@ def _print_Piecewise(
         from sympy.core.relational import Relational
 
         if all(algebraic(rel) for rel in expr.atoms(Relational)):
-            simplified = sympy.simplify(expr)
+            # The expressions are built unevaluated ("-1*0.5"). sympy decides
+            # whether an interval is closed by substituting its end point into
+            # the condition, which is only conclusive for an evaluated number:
+            # otherwise "z >= -1*0.5" comes back as "z > -1*0.5".
+            simplified = sympy.simplify(expr.doit())
         else:
             simplified = expr
     except Exception:
